@@ -27,6 +27,10 @@ CLAIMS = {
    technique="provenance & effects analysis for writes to package-level state + caller arguments; scan for goroutines/channels/sync in module code; import scan",
    text="Decides race-freedom structurally for all interleavings: (G1) no write to memory reachable from a package-level variable on any path from the entry points (except sync.Once-guarded initialisation), (G2) shared arguments are only read, (G3) no concurrency inside the module so per-call memory is private, (G4) no unsafe/reflect/cgo. Together these imply that two calls share no location that either writes, hence no data race and no cross-call influence.",
    design="4/C12"),
+ "C13": dict(
+   technique="control-dependence regions of log-flag branches checked with PEA effect summaries (write-only log regions, no value merged back), path enumeration of Apply with result stores as events, use-only-as-condition rules",
+   text="Decides non-interference of the options structurally: log-flag predicates only steer branches whose regions neither store outside region-local memory/reviewed debug maps nor call anything with effects nor feed values back; in Apply the PaginationInfo store happens exactly under !SkipPagination && URL != nil, URL is OriginalURL.String() exactly when non-nil, all other fields are filled on all successful paths from option-independent expressions, no other branch exists, and the finders leave document and URL untouched.",
+   design="4/C13"),
  "C14": dict(
    technique="static decision-list extraction + guard-cut/ordering rules on SSA (accessor order, OpenGraph gate, first-non-empty getters, opt-out dominance, field/getter agreement)",
    text="Decides the combinator skeleton of the metadata precedence for all inputs: accessor list order [OpenGraph only if complete, schema.org, IE], each getter returns the first non-empty answer of the same-named accessor method, opt-out yields the zero record, and each record field is filled from the same-named source. Not decided: what each of the three parsers extracts from a document.",
